@@ -24,11 +24,19 @@ type ctrlCase struct {
 	SType int   `json:"stype"`
 }
 
+// typeOf calls Type() and reports a panic as the type "PANIC"
+func typeOf(m ast.HSMSMessage) (t string) {
+	if p, _ := try(func() { t = m.Type() }); p {
+		return "PANIC"
+	}
+	return t
+}
+
 func wire(m ast.HSMSMessage) J {
 	if m == nil {
 		return J{"bytes": []int{}, "type": "nil"}
 	}
-	return J{"bytes": bytesJ(m.ToBytes()), "type": m.Type()}
+	return J{"bytes": bytesJ(m.ToBytes()), "type": typeOf(m)}
 }
 
 func safeCtor(f func() ast.HSMSMessage) J {
@@ -131,7 +139,7 @@ func driverCtrl(c *Ctx) {
 			t := ""
 			if key < 65536 {
 				h := []byte{1, 2, 3, 4, byte(key >> 8), byte(key), 9, 8, 7, 6}
-				t = ast.NewHSMSControlMessage(h).Type()
+				t = typeOf(ast.NewHSMSControlMessage(h))
 			}
 			if key == 0 {
 				cur = t
@@ -181,7 +189,7 @@ func driverCtrl(c *Ctx) {
 		}
 	}
 	// (c) response constructors against every kind of request
-	for _, rsp := range []string{"select.rsp", "deselect.rsp", "linktest.rsp"} {
+	for _, rsp := range []string{"select.rsp", "deselect.rsp", "linktest.rsp", "select.rsp", "deselect.rsp", "linktest.rsp", "select.rsp", "deselect.rsp", "linktest.rsp"} {
 		for _, rk := range append(append([]string{}, ctrlKinds...), "undefined", "undefined-ptype", "data message") {
 			if c.want(ci) {
 				g := c.gen(ci)
@@ -189,6 +197,12 @@ func driverCtrl(c *Ctx) {
 				g.r.Read(s4)
 				sid := uint16(g.pick(65536))
 				req := mkCtrl(rk, sid, s4, byte(g.pick(256)))
+				if _, isData := req.(*ast.DataMessage); !isData && g.pick(2) == 0 {
+					// the same kind of request as it may arrive from the wire: header bytes 2 and 3 are not zero
+					h, _ := ast.VerifControlHeader(req)
+					h[2], h[3] = byte(1+g.pick(255)), byte(1+g.pick(255))
+					req = ast.NewHSMSControlMessage(h)
+				}
 				status := byte(g.pick(256))
 				var m ast.HSMSMessage
 				refused, _ := try(func() {
@@ -201,10 +215,10 @@ func driverCtrl(c *Ctx) {
 						m = ast.NewHSMSMessageLinktestRsp(req)
 					}
 				})
-				ev := J{"ev": "pairing", "rsp": rsp, "reqtype": req.Type(), "reqkind": rk, "refused": refused, "status": int(status),
+				ev := J{"ev": "pairing", "rsp": rsp, "reqtype": typeOf(req), "reqkind": rk, "refused": refused, "status": int(status),
 					"req": bytesJ(req.ToBytes()), "bytes": []int{}, "type": ""}
 				if !refused {
-					ev["bytes"], ev["type"] = bytesJ(m.ToBytes()), m.Type()
+					ev["bytes"], ev["type"] = bytesJ(m.ToBytes()), typeOf(m)
 				}
 				c.emit(ci, ev)
 				c.count("ctrl.pairing")
@@ -235,7 +249,7 @@ func driverCtrl(c *Ctx) {
 			ev := decodeEvent(b)
 			ev["ev"] = "ctrlraw"
 			ev["hdr"] = bytesJ(h)
-			ev["type"] = m.Type()
+			ev["type"] = typeOf(m)
 			out := m.ToBytes()
 			out[len(out)-1] ^= 0xFF // neither must the returned slice alias the message
 			ev["again"] = bytesJ(m.ToBytes())
